@@ -1,1 +1,2 @@
 """Imports every tr_*.py module so that their translators register."""
+from . import tr_names  # noqa
